@@ -161,6 +161,26 @@ fn judge(out: &mut Out, label: &str, o: &Outcome, n_ops: usize, expect_driver_en
 }
 
 pub fn run(thorough: bool, mut rng: Rng, mut out: Out) {
+    // the driver is blocked inside a write (the peer has stopped reading) when the peer closes / resets:
+    // the pending write fails, the driver ends, everybody waiting is released
+    for (name, fault) in [("close", Step::Close), ("reset", Step::Reset)] {
+        for queued in 0..3usize {
+            let mut sc = vec![Step::StallWrites(true), Step::Issue { kind: OpKind::Single, tmo_ms: None }, Step::Settle];
+            for q in 0..queued {
+                sc.push(Step::Issue { kind: if q % 2 == 0 { OpKind::Search } else { OpKind::Single }, tmo_ms: None });
+            }
+            sc.push(Step::Settle);
+            sc.push(fault.clone());
+            sc.push(Step::Settle);
+            sc.push(Step::Issue { kind: OpKind::Single, tmo_ms: None });
+            sc.push(Step::Settle);
+            let o = run_script(&sc);
+            let label = format!("blocked-in-write then {} queued={}", name, queued);
+            out.case(&label, true);
+            out.stat("fault.PeerGoneWhileBlockedInWrite");
+            judge(&mut out, &label, &o, 1 + queued, true);
+        }
+    }
     let nbase = if thorough { 240 } else { 20 };
     for bi in 0..nbase {
         let b = gen_base(&mut rng);
